@@ -17,6 +17,7 @@ Section ValueInd.
   Hypothesis HRet : forall v, P v -> P (VIO (IOReturn v)).
   Hypothesis HBind : forall sp m f h l, Forall P l -> P (VIO (IOBind sp m f h l)).
   Hypothesis HComplex : forall r i, P (VComplex r i).
+  Hypothesis HOpen : forall sp p m, P (VIO (IOOpen sp p m)). Hypothesis HFile : forall sp hd o, P (VIO (IOFile sp hd o)).
   Fixpoint value_nest_ind (v:value) : P v :=
     match v with
     | VInt n => HInt n | VFloat f => HFloat f | VBool b => HBool b | VStr s => HStr s | VBytes s => HBytes s
@@ -25,7 +26,7 @@ Section ValueInd.
     | VErr s l => HErr s l ((fix go (l:list value) : Forall P l := match l with [] => Forall_nil _ | x :: r => Forall_cons _ (value_nest_ind x) (go r) end) l)
     | VDict d => HDict d ((fix go (d:list (value*value)) : Forall (fun kv => P (fst kv) /\ P (snd kv)) d :=
                             match d with [] => Forall_nil _ | p :: r => Forall_cons p (conj (value_nest_ind (fst p)) (value_nest_ind (snd p))) (go r) end) d)
-    | VIO IOInput => HIn | VIO (IOPrint s) => HPr s
+    | VIO IOInput => HIn | VIO (IOPrint s) => HPr s | VIO (IOOpen sp p m) => HOpen sp p m | VIO (IOFile sp hd o) => HFile sp hd o
     | VIO (IOReturn x) => HRet x (value_nest_ind x)
     | VIO (IOBind sp m f h l) => HBind sp m f h l ((fix go (l:list value) : Forall P l := match l with [] => Forall_nil _ | x :: r => Forall_cons _ (value_nest_ind x) (go r) end) l)
     end.
@@ -217,6 +218,28 @@ Qed.
 Print Assumptions int_eq_exact.
 
 (* ---------- the equality built-in ---------- *)
+Lemma codes_eq_true' x y : codes_eq x y = true <-> x = y.
+Proof. unfold codes_eq. destruct (list_eq_dec N.eq_dec x y); split; auto; discriminate. Qed.
+Lemma op_eqb_true a b : op_eqb a b = true <-> a = b.
+Proof.
+  destruct a, b; cbn [op_eqb]; try (split; [discriminate|intros H; discriminate H]); try (split; reflexivity);
+    try (rewrite Z.eqb_eq; split; [intros ->; reflexivity|intros H; inversion H; reflexivity]).
+  rewrite codes_eq_true'. split; [intros ->; reflexivity|intros H; inversion H; reflexivity].
+Qed.
+Lemma xop_eqb_true a b : xop_eqb a b = true <-> a = b.
+Proof.
+  destruct a as [x|], b as [y|]; cbn [xop_eqb]; try (split; [discriminate|intros H; discriminate H]); try (split; reflexivity).
+  rewrite op_eqb_true. split; [intros ->; reflexivity|intros H; inversion H; reflexivity].
+Qed.
+Lemma bool_of_iff (a b:bool) : (a = true <-> b = true) -> a = b.
+Proof. destruct a, b; intros [H1 H2]; try reflexivity; [symmetry; apply H1|apply H2]; reflexivity. Qed.
+Lemma xop_eqb_sym a b : xop_eqb a b = xop_eqb b a.
+Proof. apply bool_of_iff. rewrite !xop_eqb_true. split; congruence. Qed.
+Definition io_leaf_eq (i j:iov) : bool :=
+  match i, j with
+  | IOOpen _ p m, IOOpen _ p' m' => codes_eq p p' && (if Files_mode_eq m m' then true else false)
+  | IOFile _ h o, IOFile _ h' o' => Pos.eqb h h' && xop_eqb o o'
+  | _, _ => false end.
 Lemma codes_eq_sym x y : codes_eq x y = codes_eq y x.
 Proof. unfold codes_eq. destruct (list_eq_dec N.eq_dec x y), (list_eq_dec N.eq_dec y x); auto; congruence. Qed.
 Lemma codes_eq_true x y : codes_eq x y = true <-> x = y.
@@ -248,7 +271,7 @@ Ltac num_case b :=
   [rewrite (veqb_num b) by exact Nb; rewrite num_eq_nonnum_r by reflexivity; destruct b; try discriminate Nb; reflexivity|].
 Theorem veqb_sym : forall a b, veqb a b = veqb b a.
 Proof.
-  induction a as [n|f|bb|s|s|f| |t|l IH|sp l IH|d IH| |s|v IH|sp m f h l IH|cr ci] using value_nest_ind; intros b.
+  induction a as [n|f|bb|s|s|f| |t|l IH|sp l IH|d IH| |s|v IH|sp m f h l IH|cr ci|sp0 p0 m0|sp0 hd0 o0] using value_nest_ind; intros b.
   - rewrite veqb_num, veqb_num_r by reflexivity. apply num_eq_sym.
   - rewrite veqb_num, veqb_num_r by reflexivity. apply num_eq_sym.
   - num_case b. destruct b; try discriminate Nb; try reflexivity. cbn [veqb]. apply beqb_sym.
@@ -265,11 +288,15 @@ Proof.
   - num_case b. destruct b as [| | | | | | | |i| | | |]; try discriminate Nb; try reflexivity. destruct i; try reflexivity; cbn [veqb]; apply IH.
   - num_case b. destruct b as [| | | | | | | |i| | | |]; try discriminate Nb; try reflexivity. destruct i; try reflexivity; cbn [veqb]; apply (list_eq_sym (fun p q => veqb p q)); exact IH.
   - rewrite veqb_num, veqb_num_r by reflexivity. apply num_eq_sym.
+  - num_case b. destruct b as [| | | | | | | |i| | | |]; try discriminate Nb; try reflexivity. destruct i; try reflexivity; cbn [veqb].
+    rewrite codes_eq_sym. f_equal. destruct (Files_mode_eq m0 m), (Files_mode_eq m m0); congruence.
+  - num_case b. destruct b as [| | | | | | | |i| | | |]; try discriminate Nb; try reflexivity. destruct i; try reflexivity; cbn [veqb].
+    rewrite Pos.eqb_sym, xop_eqb_sym. reflexivity.
 Qed.
 
 Theorem veqb_trans : forall a b c, veqb a b = true -> veqb b c = true -> veqb a c = true.
 Proof.
-  induction a as [n|f|bb|s|s|f| |t|l IH|sp l IH|d IH| |s|v IH|sp m f h l IH|cr ci] using value_nest_ind; intros b c H1 H2.
+  induction a as [n|f|bb|s|s|f| |t|l IH|sp l IH|d IH| |s|v IH|sp m f h l IH|cr ci|sp0 p0 m0|sp0 hd0 o0] using value_nest_ind; intros b c H1 H2.
   - rewrite veqb_num in * by reflexivity. destruct (numeric b) eqn:Nb; [|rewrite num_eq_nonnum_r in H1 by auto; discriminate].
     rewrite veqb_num in H2 by auto. eapply num_eq_trans; eauto.
   - rewrite veqb_num in * by reflexivity. destruct (numeric b) eqn:Nb; [|rewrite num_eq_nonnum_r in H1 by auto; discriminate].
@@ -294,6 +321,16 @@ Proof.
     eapply (list_eq_trans (fun p q => veqb p q)); eauto.
   - rewrite veqb_num in * by reflexivity. destruct (numeric b) eqn:Nb; [|rewrite num_eq_nonnum_r in H1 by auto; discriminate].
     rewrite veqb_num in H2 by auto. eapply num_eq_trans; eauto.
+  - destruct b as [| | | | | | | |i| | | |]; try discriminate H1. destruct i; try discriminate H1.
+    destruct c as [| | | | | | | |j| | | |]; try discriminate H2. destruct j; try discriminate H2. cbn [veqb] in *.
+    apply andb_true_iff in H1. apply andb_true_iff in H2. destruct H1 as [A1 A2], H2 as [B1 B2]. apply codes_eq_true in A1. apply codes_eq_true in B1. subst.
+    destruct (Files_mode_eq m0 m); [|discriminate]. destruct (Files_mode_eq m m1); [|discriminate]. subst.
+    apply andb_true_iff. split; [apply codes_eq_true; reflexivity|]. destruct (Files_mode_eq m1 m1); congruence.
+  - destruct b as [| | | | | | | |i| | | |]; try discriminate H1. destruct i; try discriminate H1.
+    destruct c as [| | | | | | | |j| | | |]; try discriminate H2. destruct j; try discriminate H2. cbn [veqb] in *.
+    apply andb_true_iff in H1. apply andb_true_iff in H2. destruct H1 as [A1 A2], H2 as [B1 B2].
+    apply Pos.eqb_eq in A1. apply Pos.eqb_eq in B1. apply xop_eqb_true in A2. apply xop_eqb_true in B2. subst.
+    apply andb_true_iff. split; [apply Pos.eqb_refl|apply xop_eqb_true; reflexivity].
 Qed.
 
 (* reflexive on every fully evaluated value that contains no NaN in a position equality looks at *)
@@ -317,7 +354,7 @@ Proof. induction 1 as [|x l Hx Hl IH]; intros HP; inversion HP; subst; construct
 
 Theorem veqb_refl : forall a, nan_free a -> veqb a a = true.
 Proof.
-  induction a as [n|f|bb|s|s|f| |t|l IH|sp l IH|d IH| |s|v IH|sp m f h l IH|cr ci] using value_nest_ind; intros NF.
+  induction a as [n|f|bb|s|s|f| |t|l IH|sp l IH|d IH| |s|v IH|sp m f h l IH|cr ci|sp0 p0 m0|sp0 hd0 o0] using value_nest_ind; intros NF.
   - rewrite veqb_num by reflexivity. apply int_eq_exact. reflexivity.
   - rewrite veqb_num by reflexivity. rewrite num_eq_real by reflexivity. apply nkey_eqb_refl. destruct f; try reflexivity; try discriminate NF. cbn [nkey]. destruct (pstrip m); reflexivity.
   - apply Bool.eqb_reflx.
@@ -337,6 +374,8 @@ Proof.
   - rewrite veqb_num by reflexivity. destruct NF as [N1 N2]. unfold num_eq. cbn [ckey fst snd]. apply andb_true_iff. split; apply nkey_eqb_refl.
     + destruct cr; try reflexivity; try discriminate N1. cbn [nkey]. destruct (pstrip m); reflexivity.
     + destruct ci; try reflexivity; try discriminate N2. cbn [nkey]. destruct (pstrip m); reflexivity.
+  - cbn [veqb]. apply andb_true_iff. split; [apply codes_eq_true; reflexivity|]. destruct (Files_mode_eq m0 m0); congruence.
+  - cbn [veqb]. apply andb_true_iff. split; [apply Pos.eqb_refl|apply xop_eqb_true; reflexivity].
 Qed.
 (* NaN equals nothing, itself included *)
 Theorem nan_irreflexive b : veqb (VFloat S754_nan) b = false /\ veqb b (VFloat S754_nan) = false.
